@@ -77,6 +77,7 @@ def run(rep: Report, tier: str) -> None:
         rep.case((cfg["op"], json.dumps(cfg, sort_keys=True, default=str)))
     validate(rep, events, cfg_of, "C02")
     rep.extra["events"] = len(events)
+    rep.extra["gradient_slots_skipped_as_ill_conditioned"] = fnlog.SKIPPED["ill_conditioned_gradient_slots"]
     rep.rule = ("(1) every chain of <= 3 primitives over 10 signed rational factors emitted by TLC (quick: 20% of length 3); (2) the C01 configuration space x every differentiable "
                 "input x 2 data draws x 2 upstream gradients + one repeated call; distinct_nontrivial = distinct chains of length >= 2 + distinct configurations")
     rep.sample(chains[len(chains) // 2])
